@@ -17,7 +17,7 @@ BUILTIN_NAMES = {
 SPEC_FUNCS = {'implies', 'len_of', 'pulled', 'maxidx', 'len_called', 'failed_probe', 'neg_probes',
               'imax', 'imin', 'is_none', 'iff', 'stack_unchanged', 'level_of', 'field',
               'stack_extra', 'same', 'truthy_', 'isinst', 'strlen', 'contains_', 'trace_calls',
-              'data_len', 'finished'}
+              'data_len', 'finished', 'iter_pos', 'iter_len', 'iter_elem', 'list_prefix_of_iter', 'val_is'}
 
 LIST_METHODS = {'append', 'pop', 'sort', 'reverse', 'insert', 'extend', 'index', 'count', 'copy',
                 'remove', 'clear'}
@@ -409,9 +409,7 @@ def bi_next(E, args, kwargs, node):
                 more = True
             else:
                 more = E.branch(pos < src.length, 'iterator has more')
-            h.fields['nexts'] = h.fields.get('nexts', 0) + 1
             if not more:
-                h.fields['exhausted_calls'] = h.fields.get('exhausted_calls', 0) + 1
                 _raise('StopIteration')
             h.fields['pos'] = z3.simplify(pos + 1)
             return E.seq_elem(src, pos)
@@ -718,4 +716,10 @@ def _range_attr(E, obj, h, name):
     raise Unsupported('range.' + name)
 
 
-PSEUDO_OBJ_ATTR = {}
+def _stringio_attr(E, obj, h, name):
+    if name == 'getvalue':
+        return VBM(VBI('io.StringIO.getvalue'), obj)
+    raise Unsupported('StringIO.' + name)
+
+
+PSEUDO_OBJ_ATTR = {'pyobj:StringIO': _stringio_attr}
